@@ -137,12 +137,21 @@ ErrTableOk(o) ==
         /\ o[i].disp = ErrTable[i].txt
         /\ Decodes(o[i].resp, [t |-> "tup", items |-> <<IntResp(ErrTable[i].n), [t |-> "str", b |-> ErrTable[i].txt]>>])
 
+\* C03, direct binding: Value -> T through TryInto, by value and by reference
+ConvOutcomeOk(tok, ty, o) ==
+  IF o.ok THEN (IF ty \in {"f32", "f64"} THEN o.v.t = ty /\ \E a \in AllowedConv(tok, ty) : a.ok
+                ELSE Deliver(o.v) \in AllowedConv(tok, ty))
+  ELSE Err(o.n) \in AllowedConv(tok, ty)
+ConvJudge(r) ==
+  r.obs.r = "skip" \/ (r.obs.r = "conv" /\ r.obs.byval = r.obs.byref /\ ConvOutcomeOk(r.tok, r.ty, r.obs.byval))
+
 \* [ok, free] of one line
 Judge(r) ==
   CASE r.kind = "run" ->
          LET E == RunEnd(CfgOf(r.iface), <<>>, Room(r.w), r.in, r.obs) IN
          [ok |-> RunMonitors(r.in, r.w, r.obs) /\ E # {}, free |-> \A st \in E : st.free]
     [] r.kind = "runs" -> RunsOk(CfgOf(r.iface), <<>>, r.w, r.msgs, 1, r.obs, 1)
+    [] r.kind = "conv" -> [ok |-> ConvJudge(r), free |-> FALSE]
     [] r.kind = "errtable" -> [ok |-> ErrTableOk(r.obs), free |-> FALSE]
     [] r.kind = "queue" -> [ok |-> QueueWalk(r.K, <<>>, r.ops, r.obs, 1), free |-> FALSE]
     [] r.kind = "procset" -> ProcSetJudge(r)
